@@ -163,6 +163,19 @@ def run(ctx):
         S = rand_kv(rng, p=p1, nintmax=1, interval=interval)
         U = rand_kv(rng, p=p2, nintmax=1, interval=interval)
         run_case(ctx, ser(dict(kind="fit", label="highdeg", S=S, U=U, P=rand_points(rng, kv_info(U)[1], 1), nodes=None)))
+    for i in range(budget(ctx, 10, 100)):
+        # sibling receivers, one after the other in the same process: equal degree, equal number of control points, equal distinct
+        # knots — only the interior multiplicities sit elsewhere (anything remembered from the first fit under a key that does not
+        # see multiplicities would be reused for the second)
+        pr = same_breakpoint_pair(rng)
+        if pr is None:
+            continue
+        S1, S2 = pr
+        U = rand_kv(rng, pmax=3, nintmax=2, interval=(S1[0], S1[-1]))
+        P = rand_points(rng, kv_info(U)[1], rng.choice([1, 2]))
+        nodes = [S1[0], S1[-1]] if i % 4 == 3 else None
+        run_case(ctx, ser(dict(kind="fit", label="sibling-1", S=S1, U=U, P=P, nodes=nodes)))
+        run_case(ctx, ser(dict(kind="fit", label="sibling-2", S=S2, U=U, P=P, nodes=nodes)))
     for i in range(budget(ctx, 10, 120)):
         # receivers with weights: W a positive spline of degree 1..2, C a polynomial source, S the space of the product C * W
         interval = rand_interval(rng)
